@@ -367,10 +367,11 @@ Proof.
     + destruct (anc_down _ (hd_header st, hb) (n + 1) h Hh eq_refl Hn1 EA) as (b & Hbh & Hbn & Hall).
       exists h, b. repeat split; auto.
       * rewrite HG by (unfold hnum; cbn; lia). auto.
-      * rewrite HG by (unfold hnum; cbn; lia). cbn [fst]. rewrite <- (Hall n) by lia.
+      * rewrite HG by (unfold hnum; cbn; lia). cbn [fst] in *. rewrite <- (Hall n) by lia.
         destruct (wf_parent (h, b) Hbh) as [E0|(p & Hp)]; [unfold hnum in E0; cbn in E0; lia|].
-        rewrite (anc_parent T (h, b) _ n Hbh Hp) by (destruct Hp as (_ & _ & ?); unfold hnum in *; cbn in *; lia).
-        cbn [fst snd]. destruct Hp as (Hpo & _ & Hnum).
+        pose proof (anc_parent T (h, b) _ n Hbh Hp) as EAP. cbn [fst snd] in EAP.
+        rewrite EAP by (destruct Hp as (_ & _ & ?); unfold hnum in *; cbn in *; lia).
+        destruct Hp as (Hpo & _ & Hnum).
         replace n with (hnum (b_parent b, p)) by (unfold hnum in *; cbn in *; lia).
         apply (anc_self T (b_parent b, p)); auto.
     + exfalso. unfold anc in EA. rewrite Hh in EA.
